@@ -93,7 +93,10 @@ Depth1 ==
          AttrP(E, "p"), AttrP(Leaf(oo), "p"), AttrP(Leaf(oo), "q"),
          \* the attribute spelling, also for names that pymbolic's own objects use
          AttraP(E, "p"), AttraP(Leaf(oo), "q"), AttraP(Leaf(oo), "aggregate"), AttraP(Leaf(oo), "name"),
-         AttrP(Leaf(oo), "aggregate"), BinP("+", AttraP(Leaf(oo), "aggregate"), A) }
+         AttrP(Leaf(oo), "aggregate"), BinP("+", AttraP(Leaf(oo), "aggregate"), A),
+         \* names that begin with underscores, through both spellings
+         AttraP(Leaf(oo), "_u"), AttraP(Leaf(oo), "__w__"), AttrP(Leaf(oo), "_u"), AttrP(Leaf(oo), "__w__"),
+         AttraP(E, "_u"), BinP("*", AttraP(Leaf(oo), "_u"), A), UnP("-", AttraP(Leaf(oo), "__w__")) }
 \* depth 2: op2(op1(a, b), c) and op2(c, op1(a, b)) over the reduced kinds
 Inner == { BinP(op, Es, As) : op \in BinOps } \cup { BinP(op, Ns, Es) : op \in BinOps }
          \cup { UnP("-", Es) }
